@@ -27,7 +27,9 @@ print, then parse (every shape, any member count / nesting depth, any positions,
 * `file_roundtrip`, `text_roundtrip`   `parseFile` / `parseText` on `@import`/`@extern` lines + contents; no side condition
 * `printFile_injective`       equal printings ⇒ equal erased shapes
 parse, then print (every input, every fuel):
-* `enum_sound`, `flags_sound`, `record_sound`   the consumed tokens are exactly the printing of the result's shape
+* `enum_sound_prefix`, `flags_sound_prefix`, `record_sound`   the input is `pre ++ rest` with `rest` the returned
+                              remainder and `pre` exactly a printing of the result's shape; `enum_sound`, `flags_sound`
+                              the same on token kinds
 * `enum_parse_iff_print`, `flags_parse_iff_print`   both directions as an equivalence
 Non-vacuity: `exIface_lex`, `exSmall_lex` and the examples after them run the real `lex` (kernel `decide`);
 the `#guard`s repeat this on a larger file (tests, evaluated by the compiler).
@@ -2580,38 +2582,56 @@ theorem printFile_injective (f g : FileShape) (h : printFile f = printFile g) : 
   rw [hxs] at hys
   exact Option.some.inj hys
 
-/-- **soundness for enums**: if the declaration parser returns an enum, the tokens it consumed are
-    exactly the printing of that enum's shape (nothing skipped, nothing invented); all inputs, all fuel -/
-theorem enum_sound (fuel : Nat) (ts : List Token) (n : String) (c : List String) (is : List Item) (p : Pos)
+/-- **soundness for enums**, strong form: if the declaration parser returns an enum, its input is
+    `pre ++ rest` where `rest` is literally the returned remainder and the kinds of `pre` are exactly
+    the printing of the enum's shape (nothing skipped, nothing invented); all inputs, all fuel -/
+theorem enum_sound_prefix (fuel : Nat) (ts : List Token) (n : String) (c : List String) (is : List Item) (p : Pos)
     (rest : List Token) (h : content fuel ts = some (.decl (.enum n c is p), rest)) :
-    ts.map (·.tk) = printEnum n c (is.map Item.shape) ++ rest.map (·.tk) := by
+    ∃ pre, ts = pre ++ rest ∧ pre.map (·.tk) = printEnum n c (is.map Item.shape) := by
   obtain ⟨g, rfl, ht⟩ := content_decl_inv fuel ts _ rest h
   obtain ⟨cs, h1, h2⟩ := comments_sound ts
   obtain ⟨hc, nt, eq, k, lb, body, rb, hts, hn, heq, hk, hlb, hrb, hm⟩ := typeDecl_enum_inv _ _ _ _ _ _ _ _ _ ht
   obtain ⟨-, pre, rfl, hpre⟩ := many_sound g (peekKw "}") item printItem Item.shape item_sound g body is (rb :: rest) hm
-  rw [h1, hts]
-  simp [printEnum, printHead, h2, hc, hn, heq, hk, hlb, hrb, hpre]
+  refine ⟨cs ++ nt :: eq :: k :: lb :: (pre ++ [rb]), ?_, ?_⟩
+  · rw [h1, hts]; simp
+  · simp [printEnum, printHead, h2, hc, hn, heq, hk, hlb, hrb, hpre]
 
-/-- **soundness for flags** -/
-theorem flags_sound (fuel : Nat) (ts : List Token) (n : String) (c : List String) (is : List FlagItem) (p : Pos)
+/-- **soundness for enums**: the consumed token kinds are the printing of the result's shape -/
+theorem enum_sound (fuel : Nat) (ts : List Token) (n : String) (c : List String) (is : List Item) (p : Pos)
+    (rest : List Token) (h : content fuel ts = some (.decl (.enum n c is p), rest)) :
+    ts.map (·.tk) = printEnum n c (is.map Item.shape) ++ rest.map (·.tk) := by
+  obtain ⟨pre, rfl, hp⟩ := enum_sound_prefix fuel ts n c is p rest h
+  rw [List.map_append, hp]
+
+/-- **soundness for flags**, strong form -/
+theorem flags_sound_prefix (fuel : Nat) (ts : List Token) (n : String) (c : List String) (is : List FlagItem) (p : Pos)
     (rest : List Token) (h : content fuel ts = some (.decl (.flags n c is p), rest)) :
-    ts.map (·.tk) = printFlags n c (is.map FlagItem.shape) ++ rest.map (·.tk) := by
+    ∃ pre, ts = pre ++ rest ∧ pre.map (·.tk) = printFlags n c (is.map FlagItem.shape) := by
   obtain ⟨g, rfl, ht⟩ := content_decl_inv fuel ts _ rest h
   obtain ⟨cs, h1, h2⟩ := comments_sound ts
   obtain ⟨hc, nt, eq, k, lb, body, rb, hts, hn, heq, hk, hlb, hrb, hm⟩ := typeDecl_flags_inv _ _ _ _ _ _ _ _ _ ht
   obtain ⟨-, pre, rfl, hpre⟩ := many_sound g (peekKw "}") flagItem printFlagItem FlagItem.shape flagItem_sound g body is
     (rb :: rest) hm
-  rw [h1, hts]
-  simp [printFlags, printHead, h2, hc, hn, heq, hk, hlb, hrb, hpre]
+  refine ⟨cs ++ nt :: eq :: k :: lb :: (pre ++ [rb]), ?_, ?_⟩
+  · rw [h1, hts]; simp
+  · simp [printFlags, printHead, h2, hc, hn, heq, hk, hlb, hrb, hpre]
+
+/-- **soundness for flags** -/
+theorem flags_sound (fuel : Nat) (ts : List Token) (n : String) (c : List String) (is : List FlagItem) (p : Pos)
+    (rest : List Token) (h : content fuel ts = some (.decl (.flags n c is p), rest)) :
+    ts.map (·.tk) = printFlags n c (is.map FlagItem.shape) ++ rest.map (·.tk) := by
+  obtain ⟨pre, rfl, hp⟩ := flags_sound_prefix fuel ts n c is p rest h
+  rw [List.map_append, hp]
 
 /-- **soundness for records** whose field types are data types (`shape?` is defined): the consumed
-    tokens are the printing of a record shape whose erasure is the shape of the returned record -/
+    tokens `pre` (the input is `pre ++ rest`) are the printing of a record shape whose erasure is the
+    shape of the returned record -/
 theorem record_sound (fuel : Nat) (ts : List Token) (n : String) (c : List String) (fl : List String) (flp : Pos)
     (fs : List Field) (dv : Option (List (String × Pos))) (p : Pos) (rest : List Token)
     (h : content fuel ts = some (.decl (.record n c fl flp fs dv p), rest))
     (hd : (Decl.record n c fl flp fs dv p).shape?.isSome = true) :
-    ∃ fields : List FieldShape,
-      ts.map (·.tk) = printRecord n c fl fields (dv.map (fun l => l.map (·.1))) ++ rest.map (·.tk) ∧
+    ∃ (pre : List Token) (fields : List FieldShape), ts = pre ++ rest ∧
+      pre.map (·.tk) = printRecord n c fl fields (dv.map (fun l => l.map (·.1))) ∧
       (Decl.record n c fl flp fs dv p).shape? =
         some (.record n c fl (fields.map FieldShape.erase) (dv.map (fun l => l.map (·.1)))) := by
   obtain ⟨g, rfl, ht⟩ := content_decl_inv fuel ts _ rest h
@@ -2624,9 +2644,9 @@ theorem record_sound (fuel : Nat) (ts : List Token) (n : String) (c : List Strin
   obtain ⟨r, hr⟩ := hfs
   obtain ⟨pre, ss, rfl, hpre, hss⟩ := many_sound_rel g (peekKw "}") (field g) printField Field.shape? FieldShape.erase
     (fun ts a r h hd => field_sound g ts a r h hd) g body fs (rb :: (dvt ++ rest)) hm (mapOpt_isSome_of hr)
-  refine ⟨ss, ?_, by simp [Decl.shape?, hss]⟩
-  rw [h1, hts]
-  simp [printRecord, printHead, h2, hc, hn, heq, hk, htg, hlb, hrb, hpre, hdv]
+  refine ⟨cs ++ nt :: eq :: k :: (tg ++ lb :: (pre ++ rb :: dvt)), ss, ?_, ?_, by simp [Decl.shape?, hss]⟩
+  · rw [h1, hts]; simp
+  · simp [printRecord, printHead, h2, hc, hn, heq, hk, htg, hlb, hrb, hpre, hdv]
 
 /-- round trip and soundness together: on enums, parsing is the exact inverse of printing -/
 theorem enum_parse_iff_print (fuel : Nat) (toks rest : List Token) (n : String) (c : List String)
@@ -2829,6 +2849,8 @@ def exFile : FileShape :=
 #print axioms file_roundtrip
 #print axioms text_roundtrip
 #print axioms printFile_injective
+#print axioms enum_sound_prefix
+#print axioms flags_sound_prefix
 #print axioms enum_sound
 #print axioms flags_sound
 #print axioms record_sound
